@@ -64,6 +64,30 @@ CLAIMED.update({
   },
 })
 
+CLAIMED.update({
+  "C15": {
+    "text": "Inductive-step model checking of the real model API: every forest reachable by building through the API over 7 "
+            "five-element typed universes (2 documents, 3 regions) is a pre-state (selectors decided by the solver); one of "
+            "14 operations with every argument tuple (valid and invalid) follows; the representation invariant (links, "
+            "acyclicity, single parent, one document per tree, content model incl. ruby/rtc, region references registered, "
+            "only valid values stored) and 'rejected => unchanged' are asserted. Exhaustive within the universes.",
+    "note": "No numeric symbol: this harness is an exhaustive, solver-scheduled exploration of a finite space (stated in the "
+            "evidence). The invariant is the harness's own reading of the property. Known findings listed in known_findings.json.",
+    "technique": "bounded exhaustive exploration of pre-state x operation with the symrun engine (selector variables)",
+    "design": "DESIGN.md §3 C15",
+  },
+  "C17": {
+    "text": "All 65 536 words: byte 1 case-split, byte 2 a symbolic integer in [0,255]; the real SccWord.from_bytes, the "
+            "six code tables' find(), get_channel, PAC/mid-row attribute decoding and to_text run on it; class, channel, "
+            "row/indent/colour/italic/underline and characters are compared per path with a z3 term written from the CEA-608 "
+            "bit-pattern description (no ttconv table is read by the reference). Exhaustive by solver verdict.",
+    "note": "Trusted: z3, proxies, the reference table in vf/props/c17.py (colours compared by family, glyph-like extended "
+            "characters by a set of acceptable code points). Disassembly of lines is not covered yet.",
+    "technique": "symbolic execution with a z3 Int byte, differential against a bit-pattern reference",
+    "design": "DESIGN.md §3 C17, §7.5 R-608-TABLE",
+  },
+})
+
 NOT_YET = {
 }
 
